@@ -23,8 +23,7 @@ func init() {
 		Title: "Each mutation root field reaches its owning service exactly once",
 		Kernels: []Kernel{
 			{Name: "mutations", Pkg: ".", Files: files, Entry: "VerifMutations", Mode: "seq", Native: true,
-				Reach: []string{"with a downstream failure", "healthy"}, Functions: pipelineFns,
-				Known: []string{"C06-cache-key-ignores-operation-type"}},
+				Reach: []string{"with a downstream failure", "healthy"}, Functions: pipelineFns},
 		},
 		Assume:  []string{"gqlparser runs natively on concrete strings", "one canonical goroutine schedule", "single fault: one downstream call of one service fails"},
 		Outside: []string{"mutation operations beyond the scenario list", "sequences of several faults"},
